@@ -107,10 +107,10 @@ pub fn run(ctx: &mut Ctx) {
         extras: true,
         all_widths: false,
     };
-    ctx.meta("rule", "cases: (tree, subset of masters encoded with unknown size, marker width); trees = every forest over V up to the node bound + the deep spines; all 2^m subsets; encoded by RefEncoder (1- and 8-byte all-ones markers, and for trees of <= 5 elements every marker width 1..8; plus > 64 KiB documents with long headers at every alignment around the buffer boundary) and, independently, by the real TagWriter with write_advanced(unknown). Excluded by construction: a global element as the first element after an unknown-size master's last descendant. Oracle: strict parse == flatten(tree) with RefEncoder offsets (Ends before the closing element), and == the all-known encoding's tags; with unknown ids tolerated, the same for every tree with one element of an id outside the specification put at every position (it is an ordinary child and ends nothing). Non-trivial: encodings where an unknown-size master is closed by something other than its own sibling.");
+    ctx.meta("rule", "cases: (tree, subset of masters encoded with unknown size, marker width); trees = every forest over V up to the node bound + the deep spines; all 2^m subsets; encoded by RefEncoder (1- and 8-byte all-ones markers, and for trees of <= 5 elements every marker width 1..8; plus > 64 KiB documents with long headers at every alignment around the buffer boundary) and, independently, by the real TagWriter with write_advanced(unknown). Excluded by construction: a global element as the first element after an unknown-size master's last descendant. Every encoding is also parsed with hierarchy problems / oversized children / everything tolerated (a valid document holds nothing to tolerate). Oracle: strict parse == flatten(tree) with RefEncoder offsets (Ends before the closing element), and == the all-known encoding's tags; with unknown ids tolerated, the same for every tree with one element of an id outside the specification put at every position (it is an ordinary child and ends nothing). Non-trivial: encodings where an unknown-size master is closed by something other than its own sibling.");
     ctx.meta("bounds", &format!("forests <= {} elements over V (5 master levels), all subsets, devs <= {}", p.max_nodes, p.devs));
     ctx.meta("assumptions", "payload values irrelevant to closing decisions (default tiny payloads)");
-    for c in ["closed_by_sibling", "closed_by_element_one_level_up", "closed_by_element_two_or_more_levels_up", "closed_by_enclosing_known_size_end", "closed_by_end_of_input", "writer_encodings", "buffer_boundary_docs", "unknown_id_element_inside_unknown_size_encodings", "marker_widths_2_to_8"] {
+    for c in ["closed_by_sibling", "closed_by_element_one_level_up", "closed_by_element_two_or_more_levels_up", "closed_by_enclosing_known_size_end", "closed_by_end_of_input", "writer_encodings", "buffer_boundary_docs", "unknown_id_element_inside_unknown_size_encodings", "marker_widths_2_to_8", "parses_under_tolerance_switches"] {
         ctx.expect_nonzero(c);
     }
     let cfg = Cfg::strict();
@@ -181,6 +181,19 @@ fn sweep<T: SpecT>(ctx: &mut Ctx, rs: &RefSpec, plist: Vec<DocParams>, label: &s
         } else if obs.items != want || !obs.clean() {
             let key = format!("ref-encoded/{}", kinds.iter().filter(|k| **k != "closed_by_sibling").next().unwrap_or(&"closed_by_sibling"));
             ctx.violation(&key, &d, &format!("bytes={} expected [{}] observed {}", hex(&bytes), want.iter().map(|(i, o)| format!("{}@{}", i.short(), o)).collect::<Vec<_>>().join(" "), obs.short()));
+        }
+        // a valid document contains nothing to tolerate: where unknown-size masters end does not depend on the
+        // tolerance switches
+        if !d28 {
+            for allow in [crate::obs::ALLOW_HIER, crate::obs::ALLOW_OVERSIZED, 7u8] {
+                let o2 = parse_slice::<T>(&bytes, &cfg.clone().with_allow(allow));
+                ctx.transitions += o2.items.len() as u64 + 1;
+                ctx.count("parses_under_tolerance_switches", 1);
+                if o2.items != want || !o2.clean() {
+                    ctx.violation("tolerance-switch-changes-where-masters-end", &d, &format!("allow={} bytes={} expected [{}] observed {}", allow, hex(&bytes), want.iter().map(|(i, o)| format!("{}@{}", i.short(), o)).collect::<Vec<_>>().join(" "), o2.short()));
+                    break;
+                }
+            }
         }
         // the same tree through the real writer (unknown-size starts via write_advanced)
         let mut calls = Vec::new();
